@@ -54,6 +54,9 @@ func checkDuration(c DurCase) error {
 	if err != nil {
 		return fmt.Errorf("Duration(%d).MarshalText failed: %v", c.D, err)
 	}
+	if err = vp.KeepBytes("Duration.MarshalText", text); err != nil {
+		return err
+	}
 	var back timeutil.Duration
 	if err = back.UnmarshalText(text); err != nil {
 		return fmt.Errorf("Duration(%d): MarshalText gives %q, which UnmarshalText rejects: %v", c.D, text, err)
@@ -140,6 +143,9 @@ func checkHostPort(c HPCase) error {
 	text, err := hp.MarshalText()
 	if err != nil {
 		return fmt.Errorf("HostPort{%s, %d}.MarshalText failed: %v", vp.Q(host), c.Port, err)
+	}
+	if err = vp.KeepBytes("HostPort.MarshalText", text); err != nil {
+		return err
 	}
 	var u netutil.HostPort
 	if err = u.UnmarshalText(text); err != nil || u != hp {
@@ -294,6 +300,9 @@ func checkURL(c URLCase) error {
 	text, err := u.MarshalText()
 	if err != nil {
 		return fmt.Errorf("URL %s: MarshalText failed: %v", vp.Q(raw), err)
+	}
+	if err = vp.KeepBytes("URL.MarshalText", text); err != nil {
+		return err
 	}
 	var back urlutil.URL
 	if err = back.UnmarshalText(text); err != nil {
